@@ -63,3 +63,7 @@ Proof.
     + destruct H as [H1 [H2 [H3 [m [H4 H5]]]]]. repeat split; try assumption. exists m. rewrite C in H5. tauto.
     + destruct H as [H1 [H2 [H3 [x [H4 H5]]]]]. repeat split; try assumption. exists x. rewrite B in H5. tauto.
 Qed.
+
+(* the translator found the source shape it extracts terrapin_texts from (otherwise gen/Tables.v carries fallback values and this lemma fails) *)
+Lemma tie_extract_ok_terrapin_texts : extract_ok_terrapin_texts = true.
+Proof. reflexivity. Qed.
